@@ -100,6 +100,7 @@ namespace pika::threads::detail {
     {
         std::unique_lock<pika::detail::spinlock> l(spinlock_pool::spinlock_for(this));
         PIKA_VERIF_POST("ec.begin", this, std::distance(exit_funcs_.begin(), exit_funcs_.end()), 0);
+        PIKA_VERIF_POINT("ec.window", this, 2, 0);
 
         while (!exit_funcs_.empty())
         {
@@ -117,6 +118,7 @@ namespace pika::threads::detail {
             }
             PIKA_VERIF_POST("ec.next", this, std::distance(exit_funcs_.begin(), exit_funcs_.end()), 0);
         }
+        PIKA_VERIF_POINT("ec.window", this, 3, 0);
         ran_exit_funcs_ = true;
         PIKA_VERIF_POST("ec.ran", this, 0, 0);
     }
@@ -125,7 +127,6 @@ namespace pika::threads::detail {
     {
         std::lock_guard<pika::detail::spinlock> l(spinlock_pool::spinlock_for(this));
 
-        PIKA_VERIF_PRE("ec.add", this);
         if (ran_exit_funcs_ || get_state().state() == thread_schedule_state::terminated)
         {
             PIKA_VERIF_POST("ec.add", this, verif_self(), ran_exit_funcs_ ? 0 : 2);
